@@ -135,19 +135,22 @@ Proof. intros. unfold lrem. now apply NoDup_filter. Qed.
 
 Lemma lrem_notin : forall k l, ~ In k l -> lrem k l = l.
 Proof.
-  intros k l. induction l as [|x r IH]; cbn; auto. intros H.
+  intros k l. unfold lrem. induction l as [|x r IH]; cbn; auto. intros H.
   destruct (Nat.eqb_spec k x) as [->|Hn]; cbn.
   - exfalso. apply H. now left.
   - f_equal. apply IH. tauto.
 Qed.
 
+Lemma lrem_cons : forall k x r, lrem k (x :: r) = if Nat.eqb k x then lrem k r else x :: lrem k r.
+Proof. intros. unfold lrem. cbn. now destruct (Nat.eqb k x). Qed.
+
 Lemma lrem_length : forall k l, NoDup l -> In k l -> S (length (lrem k l)) = length l.
 Proof.
-  intros k l. induction l as [|x r IH]; cbn; [tauto|]. intros Hnd Hin.
-  inversion Hnd as [|? ? Hni Hnd']; subst.
-  destruct (Nat.eqb_spec k x) as [->|Hn]; cbn.
+  intros k l. induction l as [|x r IH]; [cbn; tauto|]. intros Hnd Hin.
+  inversion Hnd as [|? ? Hni Hnd']; subst. rewrite lrem_cons.
+  destruct (Nat.eqb_spec k x) as [->|Hn].
   - now rewrite lrem_notin.
-  - destruct Hin as [E|I]; [congruence|]. f_equal. auto.
+  - destruct Hin as [E|I]; [congruence|]. cbn [length]. f_equal. auto.
 Qed.
 
 Lemma ladd_In : forall k k0 l, In k (ladd k0 l) <-> k = k0 \/ In k l.
@@ -198,4 +201,34 @@ Lemma exited_app : forall a b c, exited (a ++ b) c = exited a c ++ exited b c.
 Proof.
   intros a b c. induction a as [|e r IH]; cbn; auto.
   destruct e; auto. destruct (Nat.eqb c c0); cbn; now rewrite IH.
+Qed.
+
+(* ---------------------------------------------------------------- one-step rewriting forms *)
+
+Lemma tget_tset : forall V (k k0 : nat) (v : V) t, tget k (tset k0 v t) = if Nat.eqb k k0 then Some v else tget k t.
+Proof.
+  intros. destruct (Nat.eqb_spec k k0) as [->|Hn]; [apply tget_tset_same|now apply tget_tset_other].
+Qed.
+
+Lemma tget_tdel : forall V (k k0 : nat) (t : table V), tget k (tdel k0 t) = if Nat.eqb k k0 then None else tget k t.
+Proof.
+  intros. destruct (Nat.eqb_spec k k0) as [->|Hn]; [apply tget_tdel_same|now apply tget_tdel_other].
+Qed.
+
+Lemma qof_tset : forall (k k0 : nat) (q : list msg) t, qof (tset k0 q t) k = if Nat.eqb k k0 then q else qof t k.
+Proof. intros. unfold qof. rewrite tget_tset. now destruct (Nat.eqb k k0). Qed.
+
+Lemma qof_tdel : forall (k k0 : nat) t, qof (tdel k0 t) k = if Nat.eqb k k0 then [] else qof t k.
+Proof. intros. unfold qof. rewrite tget_tdel. now destruct (Nat.eqb k k0). Qed.
+
+Lemma In_app_single : forall A (x y : A) l, In x (l ++ [y]) <-> In x l \/ x = y.
+Proof. intros. rewrite in_app_iff. cbn. intuition. Qed.
+
+Lemma NoDup_app_single : forall A (y : A) l, NoDup l -> ~ In y l -> NoDup (l ++ [y]).
+Proof.
+  intros A y l. induction l as [|a r IH]; cbn; intros Hnd Hni.
+  - constructor; [cbn; tauto|constructor].
+  - inversion Hnd; subst. constructor.
+    + rewrite In_app_single. intuition.
+    + apply IH; tauto.
 Qed.
